@@ -245,9 +245,12 @@ structure PcrPre {fs : Files} {lines : List Str} {a : Assembly} (st : Stages fs 
 theorem Stages.pcr_pre {fs : Files} {lines : List Str} {a : Assembly} (st : Stages fs lines a)
     {i : Nat} {s : Stmt} (hs : a.stmts[i]? = some s) (hc : s.pkg.choices ≠ []) :
     ∃ s3 s4, PcrPre st i s s3 s4 := by
-  obtain ⟨s4, hs4, hsame⟩ := (fixAll_pw st.hfix).get' hs
-  obtain ⟨s1, s', hs', hfix, hfit⟩ := (fixAll_ok2 st.hfix).2 i s4 hs4
-  rw [hs] at hs'; cases hs'
+  obtain ⟨s4, hs4, hsame⟩ := (fixAllL_pw st.hfix).get' hs
+  -- (batch 8) `fixAll`, then the pass over the FCB / FDB lists: `sw` is the statement between the two
+  obtain ⟨x5, hx5, hl5⟩ := st.fix_split
+  obtain ⟨sw, hsw, hlist⟩ := evalLists_get hl5 hs
+  obtain ⟨s1, s', hs', hfix, hfit⟩ := (fixAll_ok2 hx5).2 i s4 hs4
+  rw [hsw] at hs'; cases hs'
   rw [Nat.zero_add] at hfix
   obtain ⟨s3, hs3, hrel34⟩ := (assignAddrs_pw st.haddr).get' hs4
   obtain ⟨s2, hs2, hrel23⟩ := (pcrLoop_pw _ _ st.hpcr).get' hs3
@@ -318,6 +321,14 @@ theorem Stages.pcr_pre {fs : Files} {lines : List Str} {a : Assembly} (st : Stag
     fixOne_pcr_in hk hv1 hv2 hv3 hn4 (by cases hcc : s4.pkg.choices with
       | nil => exact absurd hcc hch4
       | cons _ _ => rfl) hfix
+  -- (batch 8) the stored field is a number: the list pass leaves the statement alone
+  have hsw' : sw = s := by
+    have hnum := fitWidth_isNumeric hfit
+      (show (withAdditional s4 v).pkg.additional.isNumeric = true from EL.numericOfInt_isNumeric q3)
+    have := hlist
+    rw [evalList1_numeric _ _ hnum] at this
+    exact Outcome.ok.inj this
+  subst hsw'
   have hlr4 : ∀ l r op m, s4.pkg.additional = .expr l r op m true → l.isAddress = true ∨ r.isAddress = true := by
     intro l r op m he
     rw [hpk4.2] at he
@@ -358,7 +369,7 @@ theorem Stages.pcr8_dist {fs : Files} {lines : List Str} {a : Assembly} (st : St
   rw [e3.2.2.2]
   -- sizes of the final list are those of `ss3`
   have hpw : PW (fun s s' : Stmt => s'.pkg.size = s.pkg.size) st.ss3 a.stmts :=
-    ((assignAddrs_pw st.haddr).trans (fixAll_pw st.hfix)
+    ((assignAddrs_pw st.haddr).trans (fixAllL_pw st.hfix)
       (T := fun s s' : Stmt => s'.pkg.size = s.pkg.size)
       (by rintro x y z ⟨_, rfl⟩ ⟨_, rfl⟩; rfl))
   have hsum : ∀ lo hi, sumSize a.stmts lo hi = sumSize st.ss3 lo hi := fun lo hi =>
@@ -407,7 +418,7 @@ theorem Stages.pcr8_dist {fs : Files} {lines : List Str} {a : Assembly} (st : St
 
 theorem Stages.addrIntOf4 {fs : Files} {lines : List Str} {a : Assembly} (st : Stages fs lines a)
     {j : Nat} {t : Stmt} (ht : a.stmts[j]? = some t) : addrIntOf st.ss4 j = addrNat t := by
-  obtain ⟨t4, ht4, v, rfl⟩ := (fixAll_pw st.hfix).get' ht
+  obtain ⟨t4, ht4, v, rfl⟩ := (fixAllL_pw st.hfix).get' ht
   unfold addrIntOf addrOf
   rw [ht4]
   rfl
@@ -623,7 +634,7 @@ theorem Stages.addrIntOf4_some {fs : Files} {lines : List Str} {a : Assembly} (s
   cases h4 : st.ss4[j]? with
   | none => simp [addrIntOf, addrOf, h4] at h
   | some t4 =>
-    obtain ⟨t, ht, _⟩ := (fixAll_pw st.hfix).get h4
+    obtain ⟨t, ht, _⟩ := (fixAllL_pw st.hfix).get h4
     exact ⟨t, ht, by rw [← st.addrIntOf4 ht]; exact h⟩
 
 /-- **the 8-bit PCR form, for EVERY accepted program** (no hypothesis on ORGs): `fix_addresses` computed the target
@@ -792,9 +803,12 @@ structure AbsPre {fs : Files} {lines : List Str} {a : Assembly} (st : Stages fs 
 theorem Stages.abs_pre {fs : Files} {lines : List Str} {a : Assembly} (st : Stages fs lines a)
     {i : Nat} {s : Stmt} (hs : a.stmts[i]? = some s) (hn : s.pkg.needsRes = true) (hc : s.pkg.choices = []) :
     ∃ s4, AbsPre st i s s4 := by
-  obtain ⟨s4, hs4, hsame⟩ := (fixAll_pw st.hfix).get' hs
-  obtain ⟨s1, s', hs', hfix, hfit⟩ := (fixAll_ok2 st.hfix).2 i s4 hs4
-  rw [hs] at hs'; cases hs'
+  obtain ⟨s4, hs4, hsame⟩ := (fixAllL_pw st.hfix).get' hs
+  -- (batch 8) `fixAll`, then the pass over the FCB / FDB lists: `sw` is the statement between the two
+  obtain ⟨x5, hx5, hl5⟩ := st.fix_split
+  obtain ⟨sw, hsw, hlist⟩ := evalLists_get hl5 hs
+  obtain ⟨s1, s', hs', hfix, hfit⟩ := (fixAll_ok2 hx5).2 i s4 hs4
+  rw [hsw] at hs'; cases hs'
   rw [Nat.zero_add] at hfix
   obtain ⟨s3, hs3, hrel34⟩ := (assignAddrs_pw st.haddr).get' hs4
   obtain ⟨s2, hs2, hrel23⟩ := (pcrLoop_pw _ _ st.hpcr).get' hs3
@@ -835,6 +849,14 @@ theorem Stages.abs_pre {fs : Files} {lines : List Str} {a : Assembly} (st : Stag
   simp only [Outcome.bind] at hfix
   rw [h2] at hfix
   obtain ⟨target, v, q1, q2, rfl⟩ := fixStep3_abs hn4 (by rw [hc4]; rfl) hfix
+  -- (batch 8) the stored field is a number: the list pass leaves the statement alone
+  have hsw' : sw = s := by
+    have hnum := fitWidth_isNumeric hfit
+      (show (withAdditional s4 v).pkg.additional.isNumeric = true from EL.numericOfInt_isNumeric q2)
+    have := hlist
+    rw [evalList1_numeric _ _ hnum] at this
+    exact Outcome.ok.inj this
+  subst hsw'
   have hlr4 : ∀ l r op m, s4.pkg.additional = .expr l r op m true → l.isAddress = true ∨ r.isAddress = true := by
     intro l r op m he
     rw [hpk4] at he
